@@ -187,7 +187,7 @@ func (g *Gen) distinctWords(n int) []string {
 	return out
 }
 
-var cmdWords = []string{"ls", "cat", "cat@", "python~", "git-x", "a.b", "nc", "net cat", `foo\@`, "sh~", "id@", "wget@", "curl", "7z", "x_y", "perl5.10~", "ps -ef", `tilde\~`, "ab", "a"}
+var cmdWords = []string{"ls", "cat", "cat@", "python~", "git-x", "a.b", "nc", "net cat", `foo\@`, "sh~", "id@", "wget@", "curl", "7z", "x_y", "perl5.10~", "ps -ef", `tilde\~`, "ab", "a", "mail@@", "vi~~", "vim~@", "sh@~", `\@`, `\~`, "b@", "c~"}
 
 func (g *Gen) cmdBlock(indent string) []string {
 	g.mark("cmdline")
